@@ -14,7 +14,7 @@ from ..report import Outcome
 from ..universe import Universe
 from .storefam import E
 
-SYMTAB = {"vlist": ["x", ["y", 1]], "vobj": {"k": ["v"]}, "uml": "ä", "vnul": "a\x00b", "i5": 5, "vlong": "x" * 600, "vsp": " a ", "vup": "A"}
+SYMTAB = {"vlist": ["x", ["y", 1]], "vobj": {"k": ["v"]}, "uml": "ä", "vnul": "a\x00b", "i5": 5, "vlong": "x" * 600, "vsp": " a ", "vup": "A", "i1": 1, "f1": 1.0, "bT": True}
 
 
 def kv_universe():
@@ -35,6 +35,9 @@ def kv_universe():
         # tag values that are arrays / objects: they reach the index as Python lists on the way in and as msgpack tuples on the way out
         E("tv", "B", 1, 27, [["e", "vlist"], ["t", "a"], ["q", "vobj"]]),
         E("dv", "B", 5, 40, [["e", "tv"]]),
+        # tag values that are equal to Python and different as JSON (1, 1.0, true): each event is indexed under its own value's text
+        E("ni", "A", 1, 41, [["t", "i1"]]), E("nf", "A", 1, 42, [["t", "f1"]]), E("nb", "B", 1, 43, [["t", "bT"]]),
+        E("dn", "A", 5, 44, [["e", "ni"], ["e", "nf"]]),
     ]
 
 
